@@ -50,7 +50,12 @@ R5 `ExecuteStep.run` (its task loop, in run() itself or moved wholesale into a m
 R6 status algebra: `_reduce_statuses` interpreted over all status lists up to length 3 (bounded abstract
    interpretation of its AST over the members it names plus one representative of the others; nothing is
    executed): FAILED/CANCELLED dominate, all-SKIPPED => SKIPPED, otherwise RECOVERED wins over COMPLETED;
-   `BaseStep._get_status` preserves FAILED.
+   a FAILED that precedes every CANCELLED of the list is the result (the cancellations `ExecuteStep.run` records
+   after a job failed for good are *consequences* of that failure: if they hid it, `_get_status` would turn the
+   CANCELLED into SKIPPED on an empty output port and no step would end FAILED); `BaseStep._get_status` preserves
+   FAILED.  Not decided: the stronger "any list containing FAILED reduces to FAILED" -- today's scan returns the
+   *first* failing member, so [CANCELLED, FAILED] reduces to CANCELLED on the unchanged tree (recorded as an
+   observation, not armed).
 
 All rules of DESIGN section 3 (C04.R1-R6) are implemented.  Limits, on purpose: R3 demands *one*
 termination-controlled exit per `while True` (LoopOutputStep has two cooperating exits whose second guard,
@@ -1882,7 +1887,9 @@ def r6(ctx):
         "skipped": ["no failure and every status SKIPPED => SKIPPED", None],
         "recovered": ["no failure, not all SKIPPED, some RECOVERED => RECOVERED", None],
         "completed": ["otherwise => COMPLETED", None],
+        "failed_first": ["a FAILED recorded before every CANCELLED of the list => FAILED (later cancellations do not hide the failure)", None],
     }
+    cancelled_first = None
     n_runs = 0
     interp = _Interp(p, f)
     for k in (1, 2, 3):
@@ -1907,10 +1914,18 @@ def r6(ctx):
                 key, ok = "completed", got == "COMPLETED"
             if not ok and clauses[key][1] is None:
                 clauses[key][1] = f"_reduce_statuses({list(combo)}) = {got}"
+            if "FAILED" in s:
+                if "CANCELLED" not in s or combo.index("FAILED") < combo.index("CANCELLED"):
+                    if got != "FAILED" and clauses["failed_first"][1] is None:
+                        clauses["failed_first"][1] = f"_reduce_statuses({list(combo)}) = {got}"
+                elif got != "FAILED" and cancelled_first is None:
+                    cancelled_first = f"_reduce_statuses({list(combo)}) = {got}"
     for key, (text, cex) in clauses.items():
         ctx.ob("R6", f"_reduce_statuses: {text}", cex is None, func=f, node=f.node, instance=f"reduce:{key}",
                message=f"status algebra broken ({text}): {cex}")
     ctx.observe(f"C04.R6 interpreted _reduce_statuses on {n_runs} status lists (length 1..3 over {domain})")
+    if cancelled_first is not None:
+        ctx.observe(f"C04.R6 (not armed) a CANCELLED recorded before a FAILED hides the failure: {cancelled_first}")
     # _get_status preserves FAILED
     gs = p.func(f"{BASE}._get_status")
     sp = [x for x in gs.params if x != "self"]
@@ -1942,7 +1957,7 @@ def r6(ctx):
 RULES = [("R1", r1), ("R2", r2), ("R3", r3), ("R4", r4), ("R5", r5), ("R6", r6)]
 # R1: 4 terminate clauses + token/status ordering + 1 _set_status; R2: 15 run() + 10 handlers; R3: 12 while loops + 1 re-arming helper (ExecuteStep._check_inputs)
 # R4: 11 executor instances; R5: 2 recording sites + return + 3 _run_job handlers
-FLOORS = {"R1": 6, "R2": 25, "R3": 13, "R4": 11, "R5": 3, "R6": 5}
+FLOORS = {"R1": 6, "R2": 25, "R3": 13, "R4": 11, "R5": 3, "R6": 6}
 
 _S = "streamflow.workflow.step."
 _TERM = f"{BASE}.terminate"
@@ -2128,6 +2143,17 @@ VARIANTS = [
     V("any SKIPPED gives SKIPPED", SFILE, REDUCE, "elif num_skipped == len(statuses):", "elif num_skipped >= 1:", "R6"),
     V("RECOVERED loses against COMPLETED", SFILE, REDUCE, "if recovered:\n        return Status.RECOVERED\n    elif", "if", "R6"),
     V("skip counter off by one", SFILE, REDUCE, "num_skipped = 0", "num_skipped = 1", "R6"),
+    # fix10: CANCELLED anywhere in the list hides an earlier FAILED (fast path hoisted before the scan)
+    V("CANCELLED fast path before the scan (in-loop case removed)", SFILE, REDUCE,
+      "    num_skipped = 0\n    recovered = False\n    for status in statuses:\n        match status:\n            case Status.FAILED:\n                return Status.FAILED\n            case Status.CANCELLED:\n                return Status.CANCELLED\n",
+      "    if Status.CANCELLED in statuses:\n        return Status.CANCELLED\n    num_skipped = 0\n    recovered = False\n    for status in statuses:\n        match status:\n            case Status.FAILED:\n                return Status.FAILED\n", "R6"),
+    V("CANCELLED fast path spelled with any()", SFILE, REDUCE, "    num_skipped = 0\n",
+      "    if any((s == Status.CANCELLED for s in statuses)):\n        return Status.CANCELLED\n    num_skipped = 0\n", "R6"),
+    V("FAILED only remembered, CANCELLED returned first after the scan", SFILE, REDUCE,
+      "            case Status.FAILED:\n                return Status.FAILED\n            case Status.CANCELLED:\n                return Status.CANCELLED\n",
+      "            case Status.FAILED:\n                if statuses.count(Status.CANCELLED) > 0:\n                    return Status.CANCELLED\n                return Status.FAILED\n            case Status.CANCELLED:\n                return Status.CANCELLED\n", "R6"),
+    V("benign: FAILED fast path before the scan", SFILE, REDUCE, "    num_skipped = 0\n",
+      "    if len(statuses) > 0 and statuses[0] == Status.FAILED:\n        return Status.FAILED\n    num_skipped = 0\n", None),
     V("_get_status hides FAILED behind SKIPPED", SFILE, f"{BASE}._get_status", "if status == Status.FAILED:\n        return status\n    elif status == Status.RECOVERED:", "if status == Status.RECOVERED:", "R6"),
     V("_get_status compares with the wrong member", SFILE, f"{BASE}._get_status", "if status == Status.FAILED:", "if status == Status.CANCELLED:", "R6"),
     # ---- benign
